@@ -527,6 +527,70 @@ def check_reader(prog: Program, res: Results, rid: str) -> None:
                 "the escape flag is not cleared after the escaped character")
 
 
+def _segment_state_inline(prog: Program, res: Results, r, pf) -> None:
+    """R-C12-4 when the segment finaliser is not a closure any more: the same obligations read off the scanner specialised to
+    `.` outside quotes — on every such path a segment is appended to the result and the buffer and the quoted flag are reset;
+    inside quotes no segment is appended; after the scan a pending escape / open quote is rejected."""
+    from sa.charmachine import UNKNOWN
+    sc = npath_scanner(prog)
+    if sc is None:
+        res.unclass("_parse_npath: the quoted/escape state flags of the scanning loop were not recognised")
+        return
+    _pf, m, body, chv, init, q, e, loop = sc
+    res.analysed_functions.add(pf.key)
+    # roles: the buffer receives an ordinary character; the quoted flag is set when a quote closes
+    buf = next((a[1].rsplit(".", 1)[0] for p_ in m.run(body, {**init, chv: "a"}) for a in p_.actions
+                if a[0] == "call" and a[1].endswith(".append") and a[2] == ["a"]), None)
+    quoted = next((a[1] for p_ in m.run(body, {**init, chv: '"', q: True, e: False}) for a in p_.actions
+                   if a[0] == "assign" and a[2] is True and a[1] not in (q, e)), None)
+    if buf is None or quoted is None:
+        res.unclass("_parse_npath: buffer / quoted-flag of the scanner were not recognised")
+        return
+
+    def appended_segment(p_):
+        return any(a[0] == "call" and a[1].endswith(".append") and not a[1].startswith(buf + ".") for a in p_.actions)
+
+    def resets(p_, var, empty):
+        return any((a[0] == "assign" and a[1] == var and (a[2] == empty or (empty == [] and a[2] in ([], ())))) or
+                   (a[0] == "call" and a[1] == f"{var}.clear") for a in p_.actions)
+
+    outside = [p_ for p_ in m.run(body, {**init, chv: "."}) if p_.exit != "raise"]
+    r.instances += 2
+    if not outside or not all(appended_segment(p_) for p_ in outside):
+        res.unclass("_parse_npath: a `.` outside quotes does not append a segment on every path — scanner shape not classifiable")
+        return
+    for var, empty in ((buf, []), (quoted, False)):
+        ok = all(resets(p_, var, empty) for p_ in outside)
+        r.ob(ok, {"state": var, "reset_on_every_normal_exit": ok})
+        if not ok:
+            res.add("R-C12-4", ("_parse_npath.finalize_segment", "state not reset", var), pf.loc(loop),
+                    f"`{var}` is per-segment state but is not reset on every path that finalises a segment: it leaks into the next "
+                    f"segment of the same path")
+    r.instances += 2
+    for esc_state in (False, True):
+        inside = m.run(body, {**init, chv: ".", q: True, e: esc_state})
+        ok = not any(appended_segment(p_) for p_ in inside)
+        r.ob(ok, {"dot_split": "outside quotes only", "escape_pending": esc_state})
+        if not ok:
+            res.add("R-C12-4", ("_parse_npath", "dot split inside quotes"), pf.loc(loop),
+                    "the `.` separator test is reachable while in_quotes is true: a quoted name containing a dot would be split")
+    for rs in [n for n in ast.walk(pf.node) if isinstance(n, ast.Raise)]:
+        r.instances += 1
+        ok = exc_name(rs.exc) == "ValueError"
+        r.ob(ok, {"raise": norm(rs)[:70]})
+        if not ok:
+            res.add("R-C12-4", ("_parse_npath", "raise type", alpha(rs, pf.node)[:60]), pf.loc(rs),
+                    "a malformed path is rejected with something other than ValueError")
+    after = pf.node.body[pf.node.body.index(loop) + 1:] if loop in pf.node.body else []
+    for what, st in {"dangling escape": {e: True, q: True}, "unterminated": {e: False, q: True}}.items():
+        paths = m.run(after, {**init, **st})
+        ok = bool(paths) and all(p_.exit == "raise" for p_ in paths)
+        r.ob(ok, {"end_of_input_check": what})
+        if not ok:
+            res.add("R-C12-4", ("_parse_npath", "end check", what), pf.loc(),
+                    f"after the scan, a {what} quoted segment is not rejected")
+
+
 def check_segment_state(prog: Program, res: Results) -> None:
     """R-C12-4: the tokenizer's per-segment state is reset when a segment is finalised."""
     r = res.rule("R-C12-4", "per-segment tokenizer state (buffer, quoted flag) is reset at every segment boundary; dots split "
@@ -534,7 +598,7 @@ def check_segment_state(prog: Program, res: Results) -> None:
     pf = prog.func("_parse_npath")
     fin = pf.nested.get("finalize_segment")
     if fin is None:
-        res.unclass("_parse_npath.finalize_segment vanished: segment-boundary shape not classifiable")
+        _segment_state_inline(prog, res, r, pf)
         return
     res.analysed_functions.add(fin.key)
     # state variables: locals of _parse_npath that finalize_segment reads and the scanning loop writes
